@@ -247,14 +247,16 @@ claim("C17",
   "member appended - twice where the validators run twice), nullable_allof_equal (== oneOf[null,{allOf}], null first), typelist_anyof_equal (type list == anyOf of the single types), enum_null_equal "
   "(under g_enum_null: enum containing null == oneOf[{type:null},{enum: rest}] in exactly that member order with the same derived names / classes, any outer annotations), single_ref_wrapper + wrapper_exact "
   "(under g_wrapper: allOf|oneOf|anyOf:[$ref R] with ANY other keywords == $ref R; with a default: exactly the referenced class renamed and the default re-validated), from_ref_default_from_parent / ref_target_default_dropped / wrapper_target_default_dropped (the REFERENCED schema's own default never reaches the referring property, through a bare $ref or a wrapper: "
-  "it carries the referring schema's default or none), excl_bool_numeric_equal, hx_idempotent, "
+  "it carries the referring schema's default or none), items_congruence (3.1 tuple arrays prefixItems+items and every other use of items: each member may be written in any equivalent notation independently of its siblings - "
+  "the builder never compares or merges sub-schemas, equal members are kept; members of a tuple are revalidated once more, again_is_top), union_members_congruence (same for anyOf/oneOf members outside the "
+  "syntactic single-reference test), excl_bool_numeric_equal, hx_idempotent, "
   "loader: parser_choice / json_parser_iff (JSON parser iff content type is exactly application/json), loader_dispatch / file_url_same / url_without_header_same (file and URL sources reach the same loader). "
   "Refutation witnesses for each guard complement and for non-congruence: enum_null_typelist_refuted, nullable_union_top_refuted, wrapper_default_refuted, wrapper_nullable_refuted, wrapper_not_congruent_refuted. "
   "Tie to the code on every run: B1 the real pydantic validators at the position the schema sits == Norm.pre_at/hx (~500 schemas quick); B2 the property objects built by build_schemas at component-root and "
   "attribute positions, default and literal_enums config == Norm.norm (~450 trees quick); B3 the parser _get_document really runs for 22 file/URL/content-type variants == Norm.choose_parser; a static check that "
   "`.nullable` is read only by the validator. Stage C (metamorphic, bytes): atlas + site-rich + random documents, every rewrite family (JSON vs YAML text, file vs in-process-patched URL with header variants, JSON text "
   "through the YAML loader, version string, nullable notations, type list vs anyOf, enum-null vs explicit union, wrapper vs bare $ref at attribute/items/additionalProperties/union-member/parameter/body/response "
-  "positions, exclusive bounds) at random subsets of applicable positions, whole trees compared byte for byte (~120 pairs quick, ~1500 thorough); differences classified by the Coq guards (re-evaluated in Coq on every "
+  "positions, exclusive bounds) at random subsets of applicable positions - including prefixItems members, items of tuple arrays, duplicated union members and duplicated allOf members whose sibling says the same thing in the same or another spelling - whole trees compared byte for byte (~125 pairs quick, ~2000 thorough); differences classified by the Coq guards (re-evaluated in Coq on every "
   "rewritten site) and the position class into six listed findings or VIOLATION with (documents, rewrite, positions, first differing file+line).",
   "Trusted / not proved: json.loads and ruamel YAML(typ=safe) are oracles WITHOUT law - their agreement on a document is sampled, not proved (that is why the claim is partial); mimetypes.guess_type and httpx are "
   "runtime oracles (httpx.get is patched in-process); the tree abstracts a property to kind, names, class names, member order, enum values and raw default: Jinja rendering of a tree to bytes is covered only by the "
@@ -285,7 +287,7 @@ claim("C06",
   "Coq proof about the total model (exit rule, aggregation, termination bounds) + in-Coq differential correspondence + junk/mutation exploration with a wall-clock limit for the never-raises half", "4/C06")
 
 claim("C16",
-  "PARTIAL. Proved in Coq (39 theorems in props/C16.v, all closed under the global context): (1) frame - the table of EVERY syntactic read of a configuration option (Python ast of openapi_python_client/**/*.py + Jinja ast of "
+  "PARTIAL. Proved in Coq (43 theorems in props/C16.v, all closed under the global context): (1) frame - the table of EVERY syntactic read of a configuration option (Python ast of openapi_python_client/**/*.py + Jinja ast of "
   "every template, including reads through the derived values Project.project_name/package_name/version/project_dir/package_dir and the template globals built from them; regenerated by translate/gen_frame.py on every run; "
   "unclassifiable uses of the Config object become `?` rows) lies inside the per-option documented site set written from the README (file, function/macro, syntactic context such as `test`, `arg:PythonIdentifier:prefix`, "
   "`arg:write_text:encoding`): forallb (reads_within documented_sites) gen_option_reads = true by vm_compute reflection, with the soundness lemmas frame_sound / frame_reads_documented stating what the boolean means; "
@@ -301,7 +303,10 @@ claim("C16",
   "package_name_keeps_other_chars (the derived package name is the project name with `-` replaced by `_` position by position and nothing else; the frame allows the project name to pass only through `.replace`); "
   "all_writers_encoded / writers_sound (regenerated table of EVERY write_text / write_bytes / open-for-writing call of the package: each passes encoding=config.file_encoding) and docstring_literals_documented / "
   "docstring_literals_sound (regenerated table of every `{{ expression }}` a template places inside a triple-quoted literal: only helpers.jinja's safe_docstring `content` and client.py.jinja's template-fixed texts, so "
-  "document text - in particular the attribute docstrings of docstrings_on_attributes - reaches a docstring only through the raw-literal-aware helper). "
+  "document text - in particular the attribute docstrings of docstrings_on_attributes - reaches a docstring only through the raw-literal-aware helper); "
+  "metadata_reads_documented / metadata_reads_sound / metadata_version_only_through_package_version / version_declared (regenerated table of every free variable, with attribute chain, that the metadata templates of ALL "
+  "flavours - pyproject.toml, pyproject_ruff.toml, setup.py, README.md, .gitignore, the list cross-checked against the template constants in Project's metadata writers - read: only project_name, package_name, "
+  "package_version, package_description, meta, poetry; a read of openapi.version / openapi.* / config.* there is outside the frame, and both pyproject.toml.jinja and setup.py.jinja do read package_version). "
   "Correspondence (vm_compute in coqc, ~1.4k cases quick): Class.from_string with random override tables / prefixes, prefix sensitivity of PythonIdentifier/ClassName, get_content_type + _source_by_content_type + body_from_data "
   "with random override tables on well-formed and hostile media type strings, endpoint_collections_by_tag for random tag lists with generate_all_tags on/off, ModelProperty.build's class for (title, name, parent, option), "
   "generated file sets per flavour. Stage C (metamorphic): plain + atlas + random documents extended with operations (several tags, octet/form/text/custom media types, names needing a prefix, titled inline objects, enums); "
@@ -319,7 +324,9 @@ claim("C16",
   "other options) on a document whose property / model / enum / parameter / operation / response descriptions carry backslashes forming invalid, unicode and hex escapes, a trailing backslash, quotes, braces, newlines and "
   "non-ASCII text: only model modules and client.py may differ, and only in docstring statements (by AST, so both files must parse), both packages must import every module alike (an import_all operation now opens every wire "
   "comparison) and round-trip / call alike. --file-encoding: every (flavour in none/poetry/pdm/setup) x (cp1252, utf-16) pair on a document with a non-ASCII title and descriptions: same file set as the utf-8 generation and "
-  "every file, decoded with the requested encoding, equals the utf-8 generation's text.",
+  "every file, decoded with the requested encoding, equals the utf-8 generation's text. Metadata probe (both tiers): package_version_override / project_name_override / package_name_override, each alone and all together, in "
+  "every flavour with a metadata file (poetry, pdm, setup): the name / version / package entries DECLARED in pyproject.toml resp. setup.py (read back by text) equal the documented values computed without the implementation "
+  "(override when given, info.version / default names otherwise) and substituting them back yields the no-override tree byte for byte.",
   "NOT a theorem: that an option a function does not read cannot influence it (Python semantics; values the parser stores and passes on are not tracked by the syntactic frame) - trusted and probed by the metamorphic search. "
   "Trusted: Coq kernel+vm_compute; gen_frame.py; the documented site sets are a hand reading of README.md / CLI help (docstrings_on_attributes is also allowed in client.py.jinja, where the generator applies the same convention; "
   "inline children of an overridden class are renamed with it because their names are minted from the parent's class name); undoing a renaming is whole-word token replacement and files are then compared as multisets of lines "
@@ -341,6 +348,8 @@ claim("C18",
   "a spelling that starts with an underscore never becomes N (the field_ prefix applies because the test reads the RAW value), and s can only land on a template identifier by having N's own python name (vm_compute reflection over ~1200 pairs). "
   "The implementation's PythonIdentifier is compared with the Coq model on every candidate and every spelling on every run (so moving the underscore test after snake_case, dropping a step, ... is a correspondence VIOLATION, followed by a "
   "targeted search that places the disagreeing spellings everywhere and reports the concrete capture, e.g. `_body` + request body -> duplicate argument). "
+  "Twin placements: every candidate N with a twin T of the same python name before de-confliction (From/from, Class/class, HTTPStatus/http_status, UNSET/unset) is generated as raw-name pair and as sibling properties of a model refined "
+  "through allOf ({untyped->string, string->date, number->integer, string->enum} x both orders x N or T redefined x inline / $ref parent), next to the twin control ZqNeutral/zq_neutral: module compiles, imports, round trip equals the control's modulo names. "
   "Search: EXHAUSTIVE over the finite regenerated candidate set (translate/gen_names.py: every identifier - names, arguments, attributes, keyword-argument names, imports - of every module of a probe client generated by the tree "
   "under verification, per scope, ast cross-checked with symtable; all keywords, soft keywords, builtins, case variants; ~450 names) x {model property required/optional of 4 kinds, typed/untyped additionalProperties, multipart body "
   "model property, parameter in path/query/header/cookie without and with a JSON body, raw-name pair (the only way an upper-case identifier becomes a python name)}. Every (candidate, placement) class / operation is generated by the real "
